@@ -1846,10 +1846,16 @@ func CantAdd(mach am.Api, states am.S, args am.A) bool {
 	args2 := &am.ACheck{
 		CheckDone: make(chan struct{}),
 	}
-	mach.CanAdd(states, am.PassMerge(args, am.Pass(args2)))
+	switch mach.CanAdd(states, am.PassMerge(args, am.Pass(args2))) {
+	case am.Canceled:
+		// also when the check was refused and never queued
+		return true
+	case am.Executed:
+		return false
+	}
 	<-args2.CheckDone
 
-	return !args2.Canceled
+	return args2.Canceled
 }
 
 // CantAdd1 is a single-state version of [CantAdd].
@@ -1862,7 +1868,13 @@ func CantRemove(mach am.Api, states am.S, args am.A) bool {
 	args2 := &am.ACheck{
 		CheckDone: make(chan struct{}),
 	}
-	mach.CanRemove(states, am.PassMerge(args, am.Pass(args2)))
+	switch mach.CanRemove(states, am.PassMerge(args, am.Pass(args2))) {
+	case am.Canceled:
+		// also when the check was refused and never queued
+		return true
+	case am.Executed:
+		return false
+	}
 	<-args2.CheckDone
 
 	return args2.Canceled
